@@ -78,9 +78,17 @@ def _gen_valid_i(rng, threads=False):
             cmp_ = ("cmp", sh(cmp_[1]), cmp_[2], sh(cmp_[3]))
             aid, pid, cid = next_id("actions"), next_id("promises"), next_id("checkpoints")
             t = rng.choice(native["otypes"])
-            native["promises"].append({"id": pid, "name": 300 + pid, "type": ("type", t["id"]), "ctx": None})
+            tref = ("type", t["id"])
+            pref = ("party", native["parties"][0]["id"])
+            if rng.random() < 0.4:
+                # the native promise is of an IMPORTED object type (ids of imported and native types overlap)
+                t = rng.choice(imp["schema"]["otypes"])
+                tref = ("type", base + t["id"])
+            if rng.random() < 0.4:
+                pref = ("party", base + rng.choice(imp["schema"]["parties"])["id"])     # ... acted on by an imported party
+            native["promises"].append({"id": pid, "name": 300 + pid, "type": tref, "ctx": None})
             native["checkpoints"].append({"id": cid, "alias": 500 + cid, "gate": None, "deps": [cmp_], "ctx": None})
-            native["actions"].append({"id": aid, "name": 400 + aid, "party": ("party", native["parties"][0]["id"]), "promise": ("promise", pid),
+            native["actions"].append({"id": aid, "name": 400 + aid, "party": pref, "promise": ("promise", pid),
                                       "ctx": None, "dep": ("checkpoint", cid),
                                       "op": {"incl": ("include", [t["attrs"][0]["name"]]), "defaults": [], "edges": [], "appends": None}, "milestones": []})
             nb.anc[aid] = set()
@@ -285,7 +293,13 @@ def cycle_through_connection(rng, case):
         return None
     native, nb = case["native"], case["builder"]
     cid = max(c["id"] for c in native["checkpoints"]) + 1
-    native["checkpoints"].append({"id": cid, "alias": 500 + cid, "gate": None, "deps": [nb.make_cmp(a)[0]], "ctx": None})
+    ptype = {p["id"]: p["type"][1] for p in native["promises"]}
+    act = next(y for y in native["actions"] if y["id"] == a)
+    if ptype.get(act["promise"][1], 0) < OFF:
+        cmp_ = nb.make_cmp(a)[0]
+    else:       # a native promise of an imported object type: the native builder has no path table for it
+        cmp_ = ("cmp", ("act", ("action", a), []), rng.choice(["EQUALS", "DOES_NOT_EQUAL"]), ("lit", "SNull", nb.fresh()))
+    native["checkpoints"].append({"id": cid, "alias": 500 + cid, "gate": None, "deps": [cmp_], "ctx": None})
     imp["conns"].append({"to": ("action", x), "add": ("checkpoint", cid), "render_native_target": None})
     return "dependency cycle closed through a connection"
 
@@ -314,7 +328,9 @@ def _some_target(rng, imp):
 
 def _fresh_native_cp(rng, case):
     native, nb = case["native"], case["builder"]
-    a = rng.choice([x for x in native["actions"] if x["ctx"] is None and x["op"]["appends"] is None] or [x for x in native["actions"] if x["ctx"] is None])
+    ptype = {p["id"]: p["type"][1] for p in native["promises"]}
+    plain = lambda x: ptype.get(x["promise"][1], 0) < OFF        # the native builder knows only native object types
+    a = rng.choice([x for x in native["actions"] if x["ctx"] is None and x["op"]["appends"] is None and plain(x)] or [x for x in native["actions"] if x["ctx"] is None and plain(x)])
     cid = max(c["id"] for c in native["checkpoints"] + [{"id": 0}]) + 1
     native["checkpoints"].append({"id": cid, "alias": 500 + cid, "gate": None, "deps": [nb.make_cmp(a["id"])[0]], "ctx": None})
     return ("checkpoint", cid)
